@@ -244,7 +244,7 @@ func (w *e1World) exec(t *task, tc *taskCtx, d opDesc) {
 		e1Yield("reader-holds-entries")
 		// what GetEntries handed out is a snapshot: it must not move under the reader, and iterating
 		// it must not involve the log any more
-		for _, e := range m.Slice() {
+		for _, e := range liveSlice(m) {
 			rec.seq = append(rec.seq, e.GetHash().String())
 		}
 	case kGet:
@@ -340,7 +340,7 @@ func genE1(r *Run, prop string) (*e1World, *e1Config) {
 	w.makeEvil(r)
 	var known []cid.Cid
 	for _, l := range w.logs {
-		for _, e := range l.GetEntries().Slice() {
+		for _, e := range liveSlice(l.GetEntries()) {
 			known = append(known, e.GetHash())
 		}
 	}
@@ -529,7 +529,7 @@ func (w *e1World) evaluate(s *sched, cfg *e1Config) {
 		}
 	}
 	for _, l := range w.logs {
-		for _, e := range l.GetEntries().Slice() {
+		for _, e := range liveSlice(l.GetEntries()) {
 			w.regEntry(e)
 		}
 	}
